@@ -224,6 +224,373 @@ def l3_layout_and_effects(chk, ctx, rng, tier):
         if fixed != f0 or pin != pin0:
             chk.fail('_project_params:mutates', '_project_params_up/down modified their arguments', dict(fixed=f0, pin=pin0))
 
+# ---------------------------------------------------------------- (iv') every argument, every container type, every option
+# Class: a function of one of the families named by the property (likelihoods, uncertainty calls, optimiser helpers, spectrum
+# methods) leaves EVERY argument unchanged, whatever container the caller used for it (list, tuple, float64 array, strided view
+# of one, integer array, list of numpy scalars) and whatever options are set, gives the same value again when called a second
+# time with the very same objects, and gives the value it gives for private float-list copies of the same numbers.
+def deep_snap(x):
+    """structural byte snapshot of an argument (recursive; callables by identity)"""
+    if isinstance(x, np.ndarray):
+        extra = (bool(getattr(x, 'folded', False)), repr(getattr(x, 'pop_ids', None))) if hasattr(x, 'folded') else ()
+        return ('nd', str(x.dtype), tuple(x.shape), bytes_of(x)) + extra
+    if isinstance(x, (list, tuple)):
+        return (type(x).__name__,) + tuple(deep_snap(e) for e in x)
+    if isinstance(x, dict):
+        return ('dict',) + tuple((repr(k), deep_snap(v)) for k, v in x.items())
+    if callable(x):
+        return ('callable', id(x))
+    return ('obj', type(x).__name__, repr(x))
+
+def flat_result(r):
+    if isinstance(r, (tuple, list)):
+        parts = [flat_result(e) for e in r]
+        return np.concatenate(parts) if parts else np.zeros(0)
+    return np.ravel(np.ma.filled(np.ma.asarray(r, dtype=float), np.nan)).astype(float)
+
+def strided(a):
+    big = np.zeros(2 * len(a) + 1, dtype=a.dtype); big[1::2] = a
+    return big[1::2]
+
+REAL_KINDS = ['list', 'tuple', 'f8', 'f8-strided', 'f8-list']
+INT_KINDS = ['i8', 'int-list']                 # offered in addition when every value is integral
+INDEX_KINDS = ['list', 'i8', 'i8-strided']
+GRID_KINDS = ['list', 'tuple', 'i8']
+SEQ_KINDS = ['list', 'tuple']
+
+def container(role, kind, values):
+    if role in ('index', 'grid'):
+        v = [int(x) for x in values]
+        if kind == 'list': return list(v)
+        if kind == 'tuple': return tuple(v)
+        if kind == 'i8': return np.array(v, dtype=np.int64)
+        if kind == 'i8-strided': return strided(np.array(v, dtype=np.int64))
+    if role == 'seq':
+        return list(values) if kind == 'list' else tuple(values)
+    if role == 'bounds':           # may contain None
+        if kind == 'list': return list(values)
+        if kind == 'tuple': return tuple(values)
+        if kind == 'f8': return np.array([np.nan if x is None else x for x in values], dtype=float)
+    v = [float(x) for x in values]
+    if kind == 'list': return list(v)
+    if kind == 'tuple': return tuple(v)
+    if kind == 'f8': return np.array(v)
+    if kind == 'f8-strided': return strided(np.array(v))
+    if kind == 'f8-list': return [np.float64(x) for x in v]
+    if kind == 'i8': return np.array([int(x) for x in v], dtype=np.int64)
+    if kind == 'int-list': return [int(x) for x in v]
+    raise ValueError((role, kind))
+
+def kinds_for(role, values):
+    if role == 'index': return INDEX_KINDS
+    if role == 'grid': return GRID_KINDS
+    if role == 'seq': return SEQ_KINDS
+    if role == 'bounds':
+        return ['list', 'tuple'] + ([] if any(x is None for x in values) else ['f8'])
+    ks = list(REAL_KINDS)
+    if all(float(x) == int(x) for x in values): ks += INT_KINDS
+    return ks
+
+LAYOUT_KINDS = {'f8-strided', 'i8-strided'}
+
+def arg_case_impl(chk, rng, family, fname, opts, make, compare_value=True, pre=None, rtol=1e-9, primary=('p0', 'params', 'pin', 'x'), quick=False):
+    """`make(C)` -> (callable, kwargs); `C(argname, role, values)` supplies the container of one sequence argument.
+    One reference call with private list copies, then for every sequence argument every container kind in turn (the other
+    sequence arguments get a random kind)."""
+    rec = {}
+    def Cref(name, role, values):
+        rec[name] = (role, list(values))
+        return container(role, 'list', values)
+    optstr = ','.join('%s=%s' % kv for kv in sorted(opts.items()))
+    base_key = '%s.%s' % (family, fname)
+    try:
+        f, kw = make(Cref)
+        if pre: pre()
+        ref = flat_result(f(**kw))
+    except Exception as e:
+        chk.l3((base_key, optstr, 'reference-raises', type(e).__name__))
+        return
+    for focus in sorted(rec):
+        role, values = rec[focus]
+        todo = kinds_for(role, values)
+        if quick and focus not in primary:
+            # quick tier: every container kind for the parameter vector; a layout kind and one other kind for the remaining arguments
+            lay = [k for k in todo if k in LAYOUT_KINDS][:1]; rest = [k for k in todo if k not in lay and k != 'list']
+            todo = lay + ([rest[int(rng.integers(len(rest)))]] if rest else [])
+        for kind in todo:
+            chosen = {}
+            def C(name, r, vals):
+                k = kind if name == focus else kinds_for(r, vals)[int(rng.integers(len(kinds_for(r, vals))))]
+                chosen[name] = k
+                return container(r, k, vals)
+            f, kw = make(C)
+            inp = dict(family=family, function=fname, options=opts, focus=focus, kinds=dict(chosen), values={k: v[1] for k, v in rec.items()})
+            if not chk.begin('%s:%s:%s=%s' % (base_key, optstr, focus, kind), inp): continue
+            chk.l3((base_key, optstr, focus, kind))
+            before = {k: deep_snap(v) for k, v in kw.items()}
+            try:
+                if pre: pre()
+                r1 = flat_result(f(**kw))
+            except Exception as e:
+                # a container type the function does not accept is not a C20 matter; a memory layout is
+                still = False
+                if kind in LAYOUT_KINDS:       # is it the layout of `focus` (everything else a plain list)?
+                    try:
+                        f3, kw3 = make(lambda name, r, vals: container(r, kind if name == focus else 'list', vals))
+                        if pre: pre()
+                        f3(**kw3)
+                    except Exception:
+                        still = True
+                if still:
+                    chk.fail('%s:raises:%s:%s' % (base_key, focus, kind), '%s(%s) raises %r when %s is a %s, but not for a list' % (fname, optstr, e, focus, kind), inp)
+                else:
+                    chk.l3((base_key, 'unsupported-container', focus, kind))
+                r1 = None
+            bad = [k for k, v in kw.items() if deep_snap(v) != before[k]]
+            for k in bad:
+                chk.fail('%s:mutates:%s' % (base_key, k), '%s(%s) modified its argument %s in place (passed as %s): %r -> %r' % (
+                    fname, optstr, k, chosen.get(k, type(kw[k]).__name__), rec.get(k, ('', None))[1], kw[k] if not isinstance(kw[k], np.ndarray) else kw[k].tolist()), inp)
+            if r1 is None: continue
+            try:
+                if pre: pre()
+                r2 = flat_result(f(**kw))
+            except Exception as e:
+                chk.fail('%s:repeat-raises' % base_key, '%s(%s) raises %r when called a second time with the same objects' % (fname, optstr, e), inp); continue
+            if r1.shape != r2.shape or not np.array_equal(r1, r2, equal_nan=True):
+                chk.fail('%s:repeat' % base_key, '%s(%s) called twice with the same objects (%s as %s) gives %s then %s' % (fname, optstr, focus, kind, r1[:4], r2[:4]), inp)
+            if compare_value and (r1.shape != ref.shape or not np.allclose(r1, ref, rtol=rtol, atol=0, equal_nan=True)):
+                chk.fail('%s:container:%s' % (base_key, focus), '%s(%s) gives %s when %s is a %s but %s for a list of the same numbers' % (fname, optstr, r1[:4], focus, kind, ref[:4]), inp)
+
+def l3_argument_effects(chk, ctx, rng, tier):
+    dadi = ctx['dadi']; G = dadi.Godambe; Inf = dadi.Inference; S = dadi.Spectrum
+    reps = 1 if tier == 'quick' else 4
+    def arg_case(*a, **k):
+        return arg_case_impl(*a, quick=(tier == 'quick'), **k)
+    def model_theta(params, ns, pts):
+        nu, T, theta = params
+        xx = dadi.Numerics.default_grid(pts)
+        phi = dadi.PhiManip.phi_1D(xx)
+        phi = dadi.Integration.one_pop(phi, xx, T, nu)
+        return theta * S.from_phi(phi, ns, (xx,))
+    def model_multi(params, ns, pts):
+        return model_theta(list(params) + [1.0], ns, pts)
+    def fresh_func(multinom):
+        ex = dadi.Numerics.make_extrap_func(model_multi if multinom else model_theta)
+        return lambda p, ns, pts: ex(p, ns, [int(x) for x in pts])          # a new function object for every call
+    def counts(fs):
+        return S(rng.poisson(np.maximum(np.ma.filled(fs, 0.0), 1e-3)).astype(float))
+    for rep in range(reps):
+        for multinom in (False, True):
+            for flavour in ('generic', 'integral', 'boundary', 'tiny'):
+                n = int(rng.integers(6, 11)); ns = (n,)
+                pts = sorted(int(x) for x in rng.choice(np.arange(8, 20), 3, replace=False))
+                if flavour == 'integral':
+                    p = [float(rng.integers(1, 4)), float(rng.integers(1, 3)), float(rng.integers(500, 2000))]
+                else:
+                    p = [float(rng.uniform(0.5, 3)), float(rng.uniform(0.1, 1.0)), float(rng.uniform(500, 2000))]
+                    if flavour == 'boundary': p[1] = 0.0
+                    if flavour == 'tiny': p[1] = 2e-5
+                truth = [p[0] * 1.1, max(p[1], 0.05) * 1.2, p[2]]
+                data = counts(fresh_func(False)(truth, ns, pts))
+                boots = [counts(data) for _ in range(4)]
+                p0 = p[:2] if multinom else p
+                np_ = len(p0)
+                logs = (False, True) if flavour in ('generic', 'integral') else (False,)
+                eps = float(rng.choice([0.01, 0.02]))
+                nested = sorted(int(x) for x in rng.choice(np.arange(np_), int(rng.integers(1, np_)), replace=False))
+                if flavour == 'boundary': nested = [1]        # the size parameter has no effect at T = 0: only the duration can be tested there
+                adjusts = [float(x) for x in rng.uniform(0.8, 1.2, len(boots))]
+                tag = dict(multinom=multinom, p0=flavour)
+                for log in logs:
+                    def mk(C, log=log):
+                        return G.FIM_uncert, dict(func_ex=fresh_func(multinom), grid_pts=C('grid_pts', 'grid', pts), p0=C('p0', 'real', p0), data=data.copy(), log=log, multinom=multinom, eps=eps, return_FIM=bool(log))
+                    arg_case(chk, rng, 'Godambe', 'FIM_uncert', dict(tag, log=log), mk)
+                    for use_adj in ((False, True) if not multinom else (False,)):
+                        def mk(C, log=log, use_adj=use_adj):
+                            kw = dict(func_ex=fresh_func(multinom), grid_pts=C('grid_pts', 'grid', pts), all_boot=C('all_boot', 'seq', [b.copy() for b in boots]), p0=C('p0', 'real', p0),
+                                      data=data.copy(), log=log, multinom=multinom, eps=eps, return_GIM=not log)
+                            if use_adj: kw['boot_theta_adjusts'] = C('boot_theta_adjusts', 'seq', adjusts)
+                            return G.GIM_uncert, kw
+                        arg_case(chk, rng, 'Godambe', 'GIM_uncert', dict(tag, log=log, boot_theta_adjusts=use_adj), mk)
+                    if not multinom:
+                        for just_hess in (False, True):
+                            def mk(C, log=log, just_hess=just_hess):
+                                return G.get_godambe, dict(func_ex=fresh_func(False), grid_pts=C('grid_pts', 'grid', pts), all_boot=C('all_boot', 'seq', [b.copy() for b in boots]),
+                                                           p0=C('p0', 'real', p0), data=data.copy(), eps=eps, log=log, just_hess=just_hess)
+                            arg_case(chk, rng, 'Godambe', 'get_godambe', dict(tag, log=log, just_hess=just_hess), mk)
+                for use_adj in ((False, True) if not multinom else (False,)):
+                    def mk(C, use_adj=use_adj):
+                        kw = dict(func_ex=fresh_func(multinom), grid_pts=C('grid_pts', 'grid', pts), all_boot=C('all_boot', 'seq', [b.copy() for b in boots]), p0=C('p0', 'real', p0),
+                                  data=data.copy(), nested_indices=C('nested_indices', 'index', nested), multinom=multinom, eps=eps)
+                        if use_adj: kw['boot_theta_adjusts'] = C('boot_theta_adjusts', 'seq', adjusts)
+                        return G.LRT_adjust, kw
+                    arg_case(chk, rng, 'Godambe', 'LRT_adjust', dict(tag, nested=len(nested), boot_theta_adjusts=use_adj), mk)
+                for adj_and_org in (False, True):
+                    def mk(C, adj_and_org=adj_and_org):
+                        return G.score_stat, dict(func_ex=fresh_func(multinom), grid_pts=C('grid_pts', 'grid', pts), all_boot=C('all_boot', 'seq', [b.copy() for b in boots]), p0=C('p0', 'real', p0),
+                                                  data=data.copy(), nested_indices=C('nested_indices', 'index', nested), multinom=multinom, eps=eps, adj_and_org=adj_and_org)
+                    arg_case(chk, rng, 'Godambe', 'score_stat', dict(tag, nested=len(nested), adj_and_org=adj_and_org), mk)
+                    for full_len in ('all', 'nested'):
+                        fullp = [x * 1.05 + 0.01 for x in p0] if full_len == 'all' else [p0[i] * 1.05 + 0.01 for i in nested]
+                        def mk(C, adj_and_org=adj_and_org, fullp=fullp):
+                            return G.Wald_stat, dict(func_ex=fresh_func(multinom), grid_pts=C('grid_pts', 'grid', pts), all_boot=C('all_boot', 'seq', [b.copy() for b in boots]), p0=C('p0', 'real', p0),
+                                                     data=data.copy(), nested_indices=C('nested_indices', 'index', nested), full_params=C('full_params', 'real', fullp), multinom=multinom, eps=eps,
+                                                     adj_and_org=adj_and_org)
+                        arg_case(chk, rng, 'Godambe', 'Wald_stat', dict(tag, nested=len(nested), adj_and_org=adj_and_org, full_params=full_len), mk)
+        # the finite-difference helpers themselves
+        for flavour in ('generic', 'integral', 'boundary', 'tiny'):
+            m = int(rng.integers(2, 5))
+            c = rng.uniform(0.5, 2, m)
+            q = [float(rng.integers(1, 5)) for _ in range(m)] if flavour == 'integral' else [float(x) for x in rng.uniform(0.5, 3, m)]
+            if flavour == 'boundary': q[int(rng.integers(m))] = 0.0
+            if flavour == 'tiny': q[int(rng.integers(m))] = 1e-6
+            def quad(pp, cc, shift=0.0):
+                pp = np.asarray(pp, dtype=float)
+                return float(np.sum(cc * pp ** 2) + pp[0] * pp[-1] + np.sum(np.cos(pp)) + shift)
+            for with_shift in (False, True):
+                extra = [c.copy(), 0.25] if with_shift else [c.copy()]
+                def mk(C, extra=extra):
+                    return G.get_hess, dict(func=quad, p0=C('p0', 'real', q), eps=0.01, args=C('args', 'seq', [e.copy() if isinstance(e, np.ndarray) else e for e in extra]))
+                arg_case(chk, rng, 'Godambe', 'get_hess', dict(p0=flavour, nargs=len(extra)), mk)
+                def mk(C, extra=extra):
+                    return G.get_grad, dict(func=quad, p0=C('p0', 'real', q), eps=0.01, args=C('args', 'seq', [e.copy() if isinstance(e, np.ndarray) else e for e in extra]))
+                arg_case(chk, rng, 'Godambe', 'get_grad', dict(p0=flavour, nargs=len(extra)), mk)
+            epsl = [0.01 * x if x != 0 else 0.01 for x in q]
+            for (ii, jj) in [(0, 0), (0, m - 1), (m - 1, m - 1)]:
+                for os_ in (None, [bool(x) for x in rng.integers(0, 2, m)]):
+                    def mk(C, ii=ii, jj=jj, os_=os_):
+                        kw = dict(func=quad, f0=quad(q, c), p0=C('p0', 'real', q), ii=ii, jj=jj, eps=C('eps', 'real', epsl), args=C('args', 'seq', [c.copy()]))
+                        if os_ is not None: kw['one_sided'] = C('one_sided', 'seq', os_)
+                        return G.hessian_elem, kw
+                    arg_case(chk, rng, 'Godambe', 'hessian_elem', dict(p0=flavour, diag=(ii == jj), one_sided=os_ is not None), mk)
+        for w in ([0.0, 1.0], [0.5, 0.5], [0.25, 0.5, 0.25]):
+            xs = [float(x) for x in rng.uniform(0, 6, int(rng.integers(1, 5)))] + [0.0]
+            def mk(C, w=w, xs=xs):
+                return G.sum_chi2_ppf, dict(x=C('x', 'real', xs), weights=C('weights', 'real', w))
+            arg_case(chk, rng, 'Godambe', 'sum_chi2_ppf', dict(nweights=len(w)), mk)
+        # likelihoods and residuals: model / data as Spectrum, masked, folded, plain arrays, integer counts
+        for dim in (1, 2):
+            shape = tuple(int(x) for x in rng.integers(5, 9, dim))
+            mvals = rng.uniform(0.1, 5, shape); dvals = rng.poisson(3, shape).astype(float)
+            dvals.flat[int(rng.integers(1, dvals.size - 1))] = 0.0
+            def spectra(kind):
+                m = S(mvals.copy()); d = S(dvals.copy())
+                if kind == 'folded': m, d = m.fold(), d.fold()
+                if kind == 'data-folded': d = d.fold()
+                if kind == 'masked': d.mask[tuple(int(rng.integers(1, s - 1)) for s in shape)] = True
+                if kind == 'unmasked-corners': m = S(mvals.copy(), mask_corners=False); d = S(dvals.copy(), mask_corners=False)
+                if kind == 'int-data': d = S(dvals.astype(int))
+                if kind == 'strided':
+                    bm = np.zeros([2 * s + 1 for s in shape]); sl = tuple(slice(1, 2 * s + 1, 2) for s in shape)
+                    bm[sl] = mvals; bd = bm.copy(); bd[sl] = dvals
+                    m = S(bm[sl], data_copy=False) if 'data_copy' in S.__new__.__code__.co_varnames else S(bm[sl]); d = S(bd[sl])
+                return m, d
+            for kind in ('plain', 'folded', 'data-folded', 'masked', 'unmasked-corners', 'int-data', 'strided'):
+                for fn in ('ll', 'll_multinom', 'll_per_bin', 'll_multinom_per_bin', 'optimal_sfs_scaling', 'optimally_scaled_sfs', 'minus_ll', 'minus_ll_multinom',
+                           'linear_Poisson_residual', 'Anscombe_Poisson_residual'):
+                    for mask in ((None, 0.5) if fn.endswith('residual') else (None,)):
+                        m, d = spectra(kind)
+                        kw = dict(model=m, data=d)
+                        if mask is not None: kw['mask'] = mask
+                        inp = dict(function=fn, kind=kind, shape=shape, mask=mask)
+                        key = 'Inference.%s:%s:%s' % (fn, kind, mask)
+                        if not chk.begin(key, inp): continue
+                        chk.l3((key, dim))
+                        before = {k: deep_snap(v) for k, v in kw.items()}
+                        try:
+                            r1 = flat_result(getattr(Inf, fn)(**kw))
+                        except Exception as e:
+                            chk.fail('Inference.%s:raises:%s' % (fn, type(e).__name__), 'Inference.%s raises %r for %s spectra' % (fn, e, kind), inp); continue
+                        for k in kw:
+                            if deep_snap(kw[k]) != before[k]:
+                                chk.fail('Inference.%s:mutates:%s' % (fn, k), 'Inference.%s modified its %s argument (%s spectra, mask=%s): data or mask bytes differ after the call' % (fn, k, kind, mask), inp)
+                        r2 = flat_result(getattr(Inf, fn)(**kw))
+                        if not np.array_equal(r1, r2, equal_nan=True):
+                            chk.fail('Inference.%s:repeat' % fn, 'Inference.%s gives a different value when called again with the same objects (%s)' % (fn, kind), inp)
+        # objective function and optimiser helpers
+        n = int(rng.integers(6, 10)); ns = (n,); pts = [10, 12, 14]
+        ex = dadi.Numerics.make_extrap_func(lambda params, ns, scale, pts: model_theta([params[0], params[1], scale], ns, pts))
+        data = counts(ex([1.7, 0.4], ns, 1000.0, pts))
+        pfree = [float(rng.uniform(0.8, 2.5)), float(rng.uniform(0.2, 0.8))]
+        for multinom in (True, False):
+            for fixed in (None, [None, 0.4]):
+                for bounds in (False, True):
+                    for store in (False, True):
+                        pin = pfree if fixed is None else pfree[:1]
+                        lb = [0.01, None]; ub = [None, 5.0]; lbf = [0.01, 0.01]; ubf = [50.0, 5.0]
+                        for fname in ('_object_func', '_object_func_log'):
+                            def mk(C, fname=fname):
+                                vals = pin if fname == '_object_func' else [float(np.log(x)) for x in pin]
+                                kw = dict(data=data.copy(), model_func=ex, pts=C('pts', 'grid', pts), multinom=multinom, func_args=C('func_args', 'seq', [1000.0 if not multinom else 1.0]),
+                                          func_kwargs={}, store_thetas=store)
+                                kw['params' if fname == '_object_func' else 'log_params'] = C('params', 'real', vals)
+                                if fixed is not None: kw['fixed_params'] = C('fixed_params', 'bounds', fixed)
+                                if bounds:
+                                    kw['lower_bound'] = C('lower_bound', 'bounds', lb if rng.random() < 0.5 else lbf); kw['upper_bound'] = C('upper_bound', 'bounds', ub if rng.random() < 0.5 else ubf)
+                                return getattr(Inf, fname), kw
+                            arg_case(chk, rng, 'Inference', fname, dict(multinom=multinom, fixed=fixed is not None, bounds=bounds, store_thetas=store), mk)
+        for fixed in ([None, 2.0, None], [None, None, None], [1.0, None, 3.0]):
+            nfree = sum(1 for x in fixed if x is None)
+            vals = [float(x) for x in rng.uniform(0.5, 3, nfree)]
+            def mk(C):
+                return Inf._project_params_up, dict(pin=C('pin', 'real', vals), fixed_params=C('fixed_params', 'bounds', fixed))
+            arg_case(chk, rng, 'Inference', '_project_params_up', dict(nfree=nfree), mk)
+            full = [float(x) for x in rng.uniform(0.5, 3, len(fixed))]
+            def mk(C):
+                return Inf._project_params_down, dict(pin=C('pin', 'real', full), fixed_params=C('fixed_params', 'bounds', fixed))
+            arg_case(chk, rng, 'Inference', '_project_params_down', dict(nfree=nfree), mk)
+        for with_none in (False, True):
+            for fold in (1, 2):
+                pv = [float(x) for x in rng.uniform(0.1, 5, 3)]
+                lb = [0.05, None, 0.01] if with_none else [0.05, 0.05, 0.01]; ub = [None, 8.0, 6.0] if with_none else [10.0, 8.0, 6.0]
+                sd = int(rng.integers(1 << 30))
+                def mk(C):
+                    return dadi.Misc.perturb_params, dict(params=C('params', 'real', pv), fold=fold, lower_bound=C('lower_bound', 'bounds', lb), upper_bound=C('upper_bound', 'bounds', ub))
+                arg_case(chk, rng, 'Misc', 'perturb_params', dict(none_bounds=with_none, fold=fold), mk, pre=lambda sd=sd: np.random.seed(sd))
+        # optimisers (two iterations): start point, bounds and fixed parameters must survive
+        opt_names = ['optimize_log', 'optimize', 'optimize_lbfgsb', 'optimize_log_lbfgsb', 'optimize_log_fmin', 'optimize_log_powell']
+        for oname in opt_names:
+            if not hasattr(Inf, oname): continue
+            for fixed in (None, [None, 0.4]):
+                def mk(C, oname=oname, fixed=fixed):
+                    kw = dict(p0=C('p0', 'real', pfree), data=data.copy(), model_func=ex, pts=C('pts', 'grid', pts), lower_bound=C('lower_bound', 'bounds', [0.01, 0.01]),
+                              upper_bound=C('upper_bound', 'bounds', [50.0, 5.0]), maxiter=2, verbose=0, multinom=True, func_args=C('func_args', 'seq', [1.0]))
+                    if fixed is not None: kw['fixed_params'] = C('fixed_params', 'bounds', fixed)
+                    return getattr(Inf, oname), kw
+                arg_case(chk, rng, 'Inference', oname, dict(fixed=fixed is not None), mk, compare_value=False)
+        # spectrum methods with list-like arguments
+        for dim in (2, 3):
+            shape = tuple(int(x) for x in rng.integers(5, 8, dim))
+            vals = rng.uniform(0.1, 5, shape)
+            ids = ['p%d' % i for i in range(dim)]
+            to = [int(rng.integers(2, s - 1)) for s in shape]
+            def mk(C):
+                fs = S(vals.copy(), pop_ids=list(ids)); return fs.project, dict(ns=C('ns', 'index', to))
+            arg_case(chk, rng, 'Spectrum', 'project', dict(dim=dim), mk)
+            over = sorted(int(x) for x in rng.choice(np.arange(dim), dim - 1, replace=False))
+            def mk(C):
+                fs = S(vals.copy(), pop_ids=list(ids)); return fs.marginalize, dict(over=C('over', 'index', over))
+            arg_case(chk, rng, 'Spectrum', 'marginalize', dict(dim=dim), mk)
+            keep = sorted(int(x) + 1 for x in rng.choice(np.arange(dim), dim - 1, replace=False))
+            if hasattr(S, 'filter_pops'):
+                def mk(C):
+                    fs = S(vals.copy(), pop_ids=list(ids)); return fs.filter_pops, dict(tokeep=C('tokeep', 'index', keep))
+                arg_case(chk, rng, 'Spectrum', 'filter_pops', dict(dim=dim), mk)
+            order = [int(x) + 1 for x in rng.permutation(dim)]
+            if hasattr(S, 'reorder_pops'):
+                def mk(C):
+                    fs = S(vals.copy(), pop_ids=list(ids)); return fs.reorder_pops, dict(neworder=C('neworder', 'index', order))
+                arg_case(chk, rng, 'Spectrum', 'reorder_pops', dict(dim=dim), mk)
+            comb = sorted(int(x) + 1 for x in rng.choice(np.arange(dim), 2, replace=False))
+            def mk(C):
+                fs = S(vals.copy(), pop_ids=list(ids)); return fs.combine_pops, dict(tocombine=C('tocombine', 'index', comb))
+            arg_case(chk, rng, 'Spectrum', 'combine_pops', dict(dim=dim), mk)
+            pts_ = 8; xx = dadi.Numerics.default_grid(pts_); phi = gen.density(rng, [pts_] * dim)
+            nsf = [int(rng.integers(2, 5)) for _ in range(dim)]
+            def mk(C):
+                return S.from_phi, dict(phi=phi.copy(), ns=C('ns', 'index', nsf), xxs=C('xxs', 'seq', [xx.copy() for _ in range(dim)]), pop_ids=C('pop_ids', 'seq', ids))
+            arg_case(chk, rng, 'Spectrum', 'from_phi', dict(dim=dim), mk)
+
 def k_memo(chk, ctx, rng):
     """the real caches behave as the memo model: hit/miss sequences return the function of the key (cache cleared first)"""
     dadi = ctx['dadi']; N = dadi.Numerics
@@ -264,6 +631,7 @@ def worker_main():
     assert os.path.realpath(dadi.__file__).startswith(os.path.realpath(path))
     chk = EventChk(skip)
     l3_layout_and_effects(chk, dict(dadi=dadi), common.Rng(seed, 'C20-layout'), tier)
+    l3_argument_effects(chk, dict(dadi=dadi), common.Rng(seed, 'C20-args'), tier)
     chk.emit(ev='done')
 
 def layout_isolated(chk, ctx, tier):
